@@ -27,7 +27,11 @@ def gen_case(rng):
             isl.append([nid, rng.random() < 0.6])
             nid += 1
         isls.append(isl)
-    return dict(isls=isls, n=rng.randint(0, 4), age=rng.randint(0, 5), calls=1)
+    age = rng.randint(0, 5)
+    # islands may be older than the archipelago (a template evolved before the archipelago was built, an island evolved on
+    # its own): the archipelago's age still advances by exactly n
+    isl_ages = [age + rng.choice([0, 0, 0, 1, 3]) for _ in isls] if rng.random() < 0.4 else [age] * len(isls)
+    return dict(isls=isls, n=rng.randint(0, 4), age=age, isl_ages=isl_ages, calls=1)
 
 
 def exhaustive_cases():
@@ -47,7 +51,7 @@ def coq_case(c, tape):
     nat = lambda x: "%d%%nat" % x  # noqa
     isl = lambda i: vlib.clist(i, lambda p: "(%d%%nat, %s)" % (p[0], vlib.cbool(p[1])))  # noqa
     return "(%s, %s, %s, %s, %s)" % (vlib.clist(c["isls"], isl), nat(c["n"]), nat(c["age"]),
-                                     vlib.clist([c["age"]] * len(c["isls"]), nat),
+                                     vlib.clist(c.get("isl_ages", [c["age"]] * len(c["isls"])), nat),
                                      vlib.clist(tape, lambda cell: vlib.clist(cell, nat)))
 
 
@@ -95,7 +99,7 @@ def impl_main(payload):
         viol = []
         arch = SerialArchipelago(Island(StubEA(), gen, 0), num_islands=len(c["isls"]))
         allobjs = []
-        for isl, spec in zip(arch.islands, c["isls"]):
+        for k_, (isl, spec) in enumerate(zip(arch.islands, c["isls"])):
             pop = []
             for (tag, fs) in spec:
                 ind = MultipleValueChromosome([tag])
@@ -104,7 +108,7 @@ def impl_main(payload):
                 ind.fit_set = bool(fs)
                 pop.append(ind)
             isl.population = pop
-            isl.generational_age = c["age"]
+            isl.generational_age = c.get("isl_ages", [c["age"]] * len(c["isls"]))[k_]
             allobjs += pop
         arch.generational_age = c["age"]
         sizes0 = [len(i.population) for i in arch.islands]
